@@ -75,6 +75,9 @@ struct OpSpec {
     in_main: bool,
     /// None: data is there before submission; Some(us): a feeder thread provides it after that delay
     feed_after_us: Option<u64>,
+    /// (tasks only) the operation's future is polled once by one task and, still pending, handed to another task that
+    /// awaits it: the completion has to wake the waker of the *latest* poll, not the first one
+    handover: bool,
 }
 
 #[derive(Debug, Clone)]
@@ -87,7 +90,7 @@ struct Prog {
 impl Prog {
     fn to_json(&self) -> Value {
         json!({"driver": self.driver, "cap": self.cap, "ops": self.ops.iter().map(|o|
-            json!({"kind": o.kind.name(), "size": o.size, "in_main": o.in_main, "feed_after_us": o.feed_after_us})).collect::<Vec<_>>()})
+            json!({"kind": o.kind.name(), "size": o.size, "in_main": o.in_main, "feed_after_us": o.feed_after_us, "handover": o.handover})).collect::<Vec<_>>()})
     }
 
     fn from_json(v: &Value) -> Option<Prog> {
@@ -103,6 +106,7 @@ impl Prog {
                         size: o["size"].as_u64()? as usize,
                         in_main: o["in_main"].as_bool()?,
                         feed_after_us: o["feed_after_us"].as_u64(),
+                        handover: o["handover"].as_bool().unwrap_or(false),
                     })
                 })
                 .collect::<Option<Vec<_>>>()?,
@@ -117,21 +121,46 @@ fn generate(rng: &mut Rng, driver: &'static str) -> Prog {
         driver,
         cap: *rng.pick(&[1u32, 2, 2, 3, 4, 64]),
         ops: (0..n)
-            .map(|_| OpSpec {
-                kind: *rng.pick(&[K::Recv, K::Read, K::Read, K::ReadAt, K::Accept]),
-                size: *rng.pick(&[1usize, 5, 64]),
-                in_main: match main_bias {
-                    0 => !rng.chance(1, 5),
-                    1 => rng.chance(1, 2),
-                    _ => rng.chance(1, 5),
-                },
-                feed_after_us: if rng.chance(3, 5) { None } else { Some(*rng.pick(&[0u64, 200, 2000, 20000])) },
+            .map(|_| {
+                let mut o = OpSpec {
+                    kind: *rng.pick(&[K::Recv, K::Read, K::Read, K::ReadAt, K::Accept]),
+                    size: *rng.pick(&[1usize, 5, 64]),
+                    in_main: match main_bias {
+                        0 => !rng.chance(1, 5),
+                        1 => rng.chance(1, 2),
+                        _ => rng.chance(1, 5),
+                    },
+                    feed_after_us: if rng.chance(3, 5) { None } else { Some(*rng.pick(&[0u64, 200, 2000, 20000])) },
+                    handover: false,
+                };
+                if !o.in_main && rng.chance(1, 3) {
+                    o.handover = true;
+                    if rng.chance(3, 4) {
+                        // late enough for the first poll to find the operation pending
+                        o.feed_after_us = Some(*rng.pick(&[2000u64, 20000, 50000]));
+                    }
+                }
+                o
             })
             .collect(),
     }
 }
 
 type Res = Result<(usize, Vec<u8>), String>;
+
+/// Polls the future once with the polling task's waker; `None` if it is still pending.
+struct PollOnce<'a>(&'a mut Pin<Box<dyn Future<Output = (usize, Res)>>>);
+
+impl Future for PollOnce<'_> {
+    type Output = Option<(usize, Res)>;
+
+    fn poll(mut self: Pin<&mut Self>, cx: &mut Context<'_>) -> Poll<Self::Output> {
+        match self.0.as_mut().poll(cx) {
+            Poll::Ready(r) => Poll::Ready(Some(r)),
+            Poll::Pending => Poll::Ready(None),
+        }
+    }
+}
 
 /// Polls its children in order, every time it is polled; ready when all are.
 struct JoinAll {
@@ -282,6 +311,9 @@ fn run_prog(p: &Prog) -> Outcome {
     let kicks = Arc::new(AtomicUsize::new(0));
     let main_polls = Arc::new(AtomicUsize::new(0));
     let submitted = Arc::new(AtomicUsize::new(0));
+    let handed = Arc::new(AtomicUsize::new(0));
+    // per operation: 1 once its future has returned (the result reached the awaiting code)
+    let returned: Arc<Vec<AtomicUsize>> = Arc::new((0..p.ops.len()).map(|_| AtomicUsize::new(0)).collect());
     let (tx, rx) = mpsc::channel::<Result<Vec<(usize, Res)>, String>>();
     let (tid_tx, tid_rx) = mpsc::channel::<i32>();
     let rt_thread = {
@@ -289,6 +321,8 @@ fn run_prog(p: &Prog) -> Outcome {
         let kicks = kicks.clone();
         let main_polls = main_polls.clone();
         let submitted = submitted.clone();
+        let handed = handed.clone();
+        let returned = returned.clone();
         std::thread::Builder::new()
             .name("c02-runtime".into())
             .spawn(move || {
@@ -319,6 +353,7 @@ fn run_prog(p: &Prog) -> Outcome {
                             let fd = SharedFd::new(fd);
                             let size = o.size.max(1);
                             let submitted = submitted.clone();
+                            let returned = returned.clone();
                             let kind = o.kind;
                             let fut: Pin<Box<dyn Future<Output = (usize, Res)>>> = Box::pin(async move {
                                 submitted.fetch_add(1, Ordering::SeqCst);
@@ -340,10 +375,31 @@ fn run_prog(p: &Prog) -> Outcome {
                                         r.map(|_| (0, Vec::new())).map_err(|e| e.to_string())
                                     }
                                 };
+                                returned[i].store(1, Ordering::SeqCst);
                                 (i, r)
                             });
                             if o.in_main {
                                 kids.push(Some(fut));
+                            } else if o.handover {
+                                // task A polls the operation once and ends; task B awaits what A hands over
+                                let handed = handed.clone();
+                                let first = compio_runtime::spawn(async move {
+                                    let mut fut = fut;
+                                    match PollOnce(&mut fut).await {
+                                        Some(r) => Ok(r),
+                                        None => {
+                                            handed.fetch_add(1, Ordering::SeqCst);
+                                            Err(fut)
+                                        }
+                                    }
+                                });
+                                handles.push(compio_runtime::spawn(async move {
+                                    match first.await {
+                                        Ok(Ok(r)) => r,
+                                        Ok(Err(fut)) => fut.await,
+                                        Err(_) => (usize::MAX, Err("prober task panicked".into())),
+                                    }
+                                }));
                             } else {
                                 handles.push(compio_runtime::spawn(fut));
                             }
@@ -449,7 +505,8 @@ fn run_prog(p: &Prog) -> Outcome {
         let over = p.ops.len() as u32 > p.cap;
         p.ops
             .iter()
-            .map(|o| format!("{}|{capc}|{}|{}|{}|{}", p.driver, o.kind.name(), if o.in_main { "main" } else { "task" },
+            .map(|o| format!("{}|{capc}|{}|{}|{}|{}", p.driver, o.kind.name(),
+                if o.in_main { "main" } else if o.handover && handed.load(Ordering::SeqCst) > 0 { "task-handed-over-pending" } else if o.handover { "task-handover" } else { "task" },
                 if o.feed_after_us.is_some() { "fed-late" } else { "ready-at-submit" }, if over { "queue-overflow" } else { "-" }))
             .collect()
     };
@@ -494,6 +551,11 @@ fn run_prog(p: &Prog) -> Outcome {
         let n_sub = submitted.load(Ordering::SeqCst);
         let polls = main_polls.load(Ordering::SeqCst);
         let sysno = std::fs::read_to_string(format!("/proc/self/task/{tid}/syscall")).unwrap_or_default().split_whitespace().next().unwrap_or("?").to_string();
+        // operations whose data has already been taken out of their descriptor (each descriptor has exactly one reader:
+        // its operation) although the program is unfinished and the runtime thread sleeps: the OS has finished them
+        let consumed: Vec<usize> = (0..p.ops.len())
+            .filter(|i| matches!(p.ops[*i].kind, K::Recv | K::Read) && returned[*i].load(Ordering::SeqCst) == 0 && !poll_ready(raw_fds[*i], libc::POLLIN))
+            .collect();
         let k0 = kicks.load(Ordering::SeqCst);
         unsafe { libc::write(kick_wr.as_raw_fd(), b"k".as_ptr() as _, 1) };
         let after = rx.recv_timeout(Duration::from_secs(3));
@@ -519,6 +581,20 @@ fn run_prog(p: &Prog) -> Outcome {
                     Outcome::Violated(vec![(format!("C02/rt/ready-but-undelivered/{}/{}/{over}", p.driver, p.ops[i].kind.name()),
                         format!("the runtime turned after the kick, but operation(s) {unread:?} still have their data unread in the descriptor (poll(2)) and never completed; \
                                  {n_sub} of {} submitted, main future polled {polls} times, asleep in syscall {sysno}", p.ops.len()))])
+                } else if kicked && !consumed.is_empty() && (0..3).all(|_| asleep(tid)) {
+                    let still: Vec<usize> = consumed.iter().copied().filter(|i| returned[*i].load(Ordering::SeqCst) == 0).collect();
+                    if still.is_empty() {
+                        return Outcome::Inconclusive("stalled, but every operation whose data was consumed has returned by now".into());
+                    }
+                    let i = still[0];
+                    let consumed = still;
+                    Outcome::Violated(vec![(format!("C02/rt/completed-but-never-resumed/{}/{}/{}", p.driver, p.ops[i].kind.name(),
+                            if p.ops[i].handover { "handed-over" } else if p.ops[i].in_main { "main" } else { "task" }),
+                        format!("operation(s) {consumed:?} had taken their data out of the descriptor (nothing unread, one reader per descriptor) while the runtime \
+                                 thread slept (5 looks, no context switch); an unrelated completion then turned the loop, and the thread sleeps again \
+                                 (3 looks) with the program unfinished: the OS finished the operation but the task awaiting it is never resumed; \
+                                 {n_sub} of {} submitted, {} future(s) handed over while pending, main future polled {polls} times, syscall {sysno}",
+                                 p.ops.len(), handed.load(Ordering::SeqCst)))])
                 } else {
                     Outcome::Inconclusive(format!("stalled (syscall {sysno}), kick {} and nothing unread remains: cannot tell a lost completion from a dead harness",
                         if kicked { "turned the loop" } else { "did not turn the loop" }))
